@@ -173,6 +173,29 @@ def writes(run):
 
 
 # --------------------------------------------------------------------------- combine / reshape / copy / serialise
+def mixed_rows(rng, shape):
+    """an object array of rank >= 2: scalar payloads, except some full rows along the last dim, which hold one sequence kind"""
+    scalars = ["o0", "o1", "o2", "o6", "o8"] + (["o5"] if rng.random() < 0.2 else [])
+    a = np.empty(shape, dtype=object)
+    flat = a.reshape(-1)
+    for i in range(flat.size):
+        flat[i] = rng.choice(scalars)
+    a = flat.reshape(shape)
+    rows = list(np.ndindex(*shape[:-1]))
+    later = rows[1:] or rows
+    chosen = rng.sample(later, rng.randint(1, len(later)))
+    if rng.random() < 0.15:
+        chosen.append(rows[0])
+    kind = rng.choice(["o3", "o3", "o7", "o4"])              # list (twice as often), tuple, dict
+    for r in chosen:
+        for j in range(shape[-1]):
+            a[r + (j,)] = kind
+    return a
+
+
+COPY_OPS = {"clone", "clone(False)", "copy", "pickle", "share+clone", "share+to_tensordict", "clone(entry)", "clone(False)(entry)", "copy(entry)"}
+
+
 def combine_and_shape(run):
     scratch = tempfile.mkdtemp(prefix="c16_", dir=str(BUILD))
     n = 1500 if run.tier == "quick" else 10000
@@ -196,6 +219,17 @@ def combine_and_shape(run):
                 ("update_", None, None),
                 ("memmap", None, None),
             ]
+            ops += [
+                # the entry's own copies
+                ("clone(entry)", lambda t: t.get("a").clone(), lambda x: x),
+                ("clone(False)(entry)", lambda t: t.get("a").clone(False), lambda x: x),
+                ("copy(entry)", lambda t: t.get("a").copy(), lambda x: x),
+            ]
+            if rank >= 2 and isinstance(td.get("a"), NonTensorData):
+                # a shared entry follows the batch size its holder is given (`_apply_nest(batch_size=...)` -> `NonTensorData.empty`)
+                k = run.rng.randrange(1, rank)
+                ops += [("apply(batch_size)", lambda t, k=k: t.apply(lambda x: x, batch_size=shape[:k]),
+                         lambda x, k=k: x[tuple([slice(None)] * k + [0] * (rank - k))])] * 3
             if rank:
                 numel = int(np.prod(shape))
                 d = run.rng.randrange(rank)
@@ -219,6 +253,8 @@ def combine_and_shape(run):
                     ("cat", None, None), ("lazy_stack", None, None), ("stack+unbind", None, None),
                 ]
             if rank >= 2:
+                ops += [("memmap-mixed", None, None)] * 2
+            if rank >= 2:
                 # a reshape that is neither a flatten nor an unflatten of consecutive dims: the batch dims reversed
                 # (only when that is a different shape), e.g. [2, 3] -> [3, 2]
                 rev = list(reversed(shape))
@@ -230,8 +266,18 @@ def combine_and_shape(run):
             run.count("extended.op", name)
             fp = f"{name}:{rep}"
             if f is not None:
-                check(run, "shape-op" if name not in ("clone", "clone(False)", "copy", "pickle", "share+clone", "share+to_tensordict") else "copy", case,
-                      lambda: content(f(td)), nested(g(a)), fp)
+                is_copy = name in COPY_OPS
+
+                def do(f=f, td=td, is_copy=is_copy):
+                    r = f(td)
+                    e = r if isinstance(r, (NonTensorData, NonTensorStack)) else r.get("a")
+                    if is_copy:
+                        # a copy keeps what the entry is besides its objects: batch size and device
+                        e0 = td.get("a")
+                        if (e.device, tuple(e.batch_size)) != (e0.device, tuple(e0.batch_size)):
+                            raise AssertionError(f"the copy has device {e.device} / batch size {tuple(e.batch_size)}, the original {e0.device} / {tuple(e0.batch_size)}")
+                    return N.tolist_ids(e)
+                check(run, "copy" if is_copy else "shape-op", case, do, nested(g(a)), fp)
             elif name == "to_dict":
                 def todict():
                     v = td.to_dict()["a"]
@@ -262,6 +308,43 @@ def combine_and_shape(run):
                     td.memmap(d)
                     return content(TensorDict.load_memmap(d))
                 check(run, "memmap", case, mm, nested(a), fp + (":sequence-payload" if {"o7", "o3"} & set(a.reshape(-1)) else ""))
+            elif name == "memmap-mixed":
+                # MIXED payload kinds within one entry: scalars in most rows, one or more full rows (last batch dim) of equal-length
+                # lists / tuples / dicts - usually not the first row, so the first payload is a scalar.  A row of equal-length lists
+                # looks like one more batch level in the nested list written to disk.
+                a2 = mixed_rows(run.rng, shape)
+                spec2 = N.represent(a2, run.rng, p_shared=0.4)
+                case = {"op": name, "spec": str(spec2)}
+                d = os.path.join(scratch, f"mm{it}")
+                how = run.rng.choice(["holder", "entry"])
+                case["saved"] = how
+
+                def mmx(spec2=spec2, d=d, how=how):
+                    if how == "holder":
+                        N.holder(spec2, shape, dev).memmap(d)
+                        return content(TensorDict.load_memmap(d))
+                    N.build(spec2).memmap(d)
+                    back = TensorDict.load_memmap(d)
+                    if spec2[0] == "sh" and tuple(back.batch_size) == () and N.id_of(back.data) == spec2[1]:
+                        return "batch-size-lost"
+                    return N.tolist_ids(back)
+                if how == "entry" and spec2[0] == "sh":
+                    # a BARE shared entry saved on its own (not inside a tensordict)
+                    try:
+                        with time_limit(15):
+                            got = mmx()
+                    except TimeoutError:
+                        raise
+                    except Exception as ex:  # noqa: BLE001
+                        got = f"raises {type(ex).__name__}: {str(ex)[:100]}"
+                    if got == nested(a2):
+                        run.oracle_ok("memmap")
+                    elif got == "batch-size-lost":
+                        run.oracle_fail("memmap", case, f"the object comes back, the batch size {shape} does not (loaded batch size is ())", fingerprint="memmap-bare-shared-entry:batch-size-lost")
+                    else:
+                        run.oracle_fail("memmap", case, f"content {str(got)[:160]} expected {str(nested(a2))[:160]}", fingerprint="memmap-bare-shared-entry:content")
+                else:
+                    check(run, "memmap", case, mmx, nested(a2), f"memmap-mixed:{how}")
             elif name == "masked_select":
                 m = torch.tensor(np.array([run.rng.random() < 0.6 for _ in range(int(np.prod(shape)))]).reshape(shape))
                 if not m.any():
@@ -276,14 +359,16 @@ def combine_and_shape(run):
                 spec2 = N.represent(a2, run.rng)
                 other = N.holder(spec2, shape, dev)
                 d = run.rng.randrange(rank)
-                case["other"] = str(spec2)
+                ds = N.spell(run.rng, d, rank)
+                dst = N.spell(run.rng, d, rank + 1)
+                case["other"], case["dim"] = str(spec2), ds
                 fp2 = f"{name}:{rep}+{'stack' if has_stack(spec2) else 'shared'}"
                 if name == "cat":
-                    check(run, "cat", case, lambda: content(torch.cat([td, other], d)), nested(np.concatenate([a, a2], axis=d)), fp2)
+                    check(run, "cat", case, lambda: content(torch.cat([td, other], ds)), nested(np.concatenate([a, a2], axis=d)), fp2)
                 elif name == "lazy_stack":
-                    check(run, "lazy_stack", case, lambda: content(LazyStackedTensorDict.lazy_stack([td, other], d)), nested(np.stack([a, a2], axis=d)), fp2)
+                    check(run, "lazy_stack", case, lambda: content(LazyStackedTensorDict.lazy_stack([td, other], dst)), nested(np.stack([a, a2], axis=d)), fp2)
                 else:
-                    check(run, "stack+unbind", case, lambda: content(torch.stack([td, other], d).unbind(d)[1]), nested(a2), fp2)
+                    check(run, "stack+unbind", case, lambda: content(torch.stack([td, other], dst).unbind(dst)[1]), nested(a2), fp2)
     finally:
         shutil.rmtree(scratch, ignore_errors=True)
 
@@ -356,3 +441,86 @@ def copy_independence(run):
             run.oracle_fail("copy-independence", case, f"written side reads {str(got_target)[:120]} expected {str(want_target)[:120]}", fingerprint=f"{fp}:content")
         else:
             run.oracle_ok("copy-independence")
+
+
+# --------------------------------------------------------------------------- writes into memory-mapped / shared holders
+def _flat(x):
+    return [y for e in x for y in _flat(e)] if isinstance(x, list) else [x]
+
+
+def storage_writes(run):
+    """indexed assignment into a holder that was memory-mapped (`memmap_`) or moved to shared memory (`share_memory_`).
+    Such a holder may REFUSE the write of a new object (explicit error: counted).  What it may not do is accept it and
+    drop it (the entry reads as before), write other positions, or - memory-mapped - leave the copy on disk behind."""
+    n = 160 if run.tier == "quick" else 1500
+    for _ in range(n):
+        shape = N.gen_shape(run.rng, 3)
+        if not shape:
+            continue
+        a = N.gen_array(run.rng, shape, constant=True if run.rng.random() < 0.3 else None)
+        spec = N.represent(a, run.rng, p_shared=0.5)
+        kind = run.rng.choice(["memmap", "shared"])
+        if run.rng.random() < 0.5:
+            idx = tuple(run.rng.randrange(k) for k in shape)
+        else:
+            idx = gen_write_index(run.rng, shape)
+        try:
+            pos = N.positions(shape, tuple(torch.tensor(i) if isinstance(i, list) else i for i in idx))
+        except Exception:  # noqa: BLE001
+            continue
+        if pos.numel() == 0:
+            continue
+        vshape = list(pos.shape)
+        used = set(a.reshape(-1))
+        fresh_ids = [i for i in N.IDS if i not in used] or N.IDS
+        v = np.empty(vshape, dtype=object)
+        v[...] = run.rng.choice(fresh_ids)
+        vspec = N.represent(v, run.rng, p_shared=0.7)
+        case = {"holder": kind, "spec": str(spec), "index": repr(idx), "value": str(vspec)}
+        run.case(("storage-write", kind, str(spec), repr(idx)), nontrivial=has_stack(spec))
+        rep = "stack" if has_stack(spec) else "shared"
+        fp = f"storage-write:{kind}:{rep}"
+        d = tempfile.mkdtemp(dir=BUILD) if kind == "memmap" else None
+        try:
+            try:
+                with time_limit(20):
+                    td = N.holder(spec, shape)
+                    if kind == "memmap":
+                        td.memmap_(d)
+                    else:
+                        td.share_memory_()
+                    before = content(td)
+                    td[idx] = N.holder(vspec, vshape)
+                    got = content(td)
+                    disk = content(TensorDict.load_memmap(d)) if kind == "memmap" else None
+            except TimeoutError:
+                raise
+            except Exception as ex:  # noqa: BLE001
+                run.count("storage_write.outcome", f"{kind}:{rep}:refused:{err_class(ex)}")
+                continue
+            flat = a.reshape(-1).copy()
+            flat[pos.numpy().reshape(-1)] = v.reshape(-1)
+            want = nested(flat.reshape(shape))
+            if got == want and (disk is None or disk == want):
+                run.count("storage_write.outcome", f"{kind}:{rep}:written")
+                run.oracle_ok("storage-write")
+            elif got == want:
+                run.oracle_fail("storage-write", case, f"the holder reads the new objects, the copy on disk does not: {str(disk)[:120]} expected {str(want)[:120]}",
+                                fingerprint=f"{fp}:disk-stale")
+            elif got == before:
+                run.oracle_fail("storage-write", case, f"the write was accepted (no error) and dropped: the entry still reads {str(got)[:120]}, expected {str(want)[:120]}",
+                                fingerprint=f"{fp}:dropped")
+            elif all(g == w or g == b for g, w, b in zip(_flat(got), _flat(want), _flat(before))):
+                # every position holds either the new or the old object: part of the write was dropped, nothing wrong was written
+                run.oracle_fail("storage-write", case, f"the write was accepted (no error) and partly dropped: {str(got)[:120]} expected {str(want)[:120]}",
+                                fingerprint=f"{fp}:partly-dropped")
+            elif kind == "shared" and all(g == w or g == b or g == "unknown" for g, w, b in zip(_flat(got), _flat(want), _flat(before))):
+                # a position reads an object that is neither the old nor the new one (nor any object of the pool): the shared slot
+                # of the old payload was refilled with the new payload's items (`_update_shared_nontensor` goes by the OLD type)
+                run.oracle_fail("storage-write", case, f"the written positions read an object that is neither the old nor the new one: {str(got)[:120]} expected {str(want)[:120]}",
+                                fingerprint=f"{fp}:coerced")
+            else:
+                run.oracle_fail("storage-write", case, f"content {str(got)[:120]} expected {str(want)[:120]}", fingerprint=f"{fp}:content")
+        finally:
+            if d:
+                shutil.rmtree(d, ignore_errors=True)
